@@ -1,4 +1,4 @@
-\* thorough: all streams of 1..3 frames over box "t" (2 dt x 3 acc x {3 known rotations, integrated}), 3 initial
+\* thorough: all streams of 1..3 frames over box "t" (2 dt x 2 acc x {2 known rotations, integrated}), 3 initial
 \* rotations, gravity 0 / 9.75, every chunking
 SPECIFICATION Spec
 CONSTANTS
